@@ -123,9 +123,139 @@ example : Gen.getMsgKey qA ≠ Gen.getMsgKey qCH := by decide
 example : lookup ([Op.store qA (7 : Nat)].foldl step []) qA = some ⟨qA, 7⟩ := by decide
 example : lookup ([Op.store qA (7 : Nat)].foldl step []) qCAA = none := by decide
 
+/-! ## Chains of plugins with more than one cache plugin
+
+Between two cache plugins of one chain the question may be rewritten, in place
+(`redirect`) or on a copy of the context (`prefer_ipv4` / `prefer_ipv6`, `fallback`,
+lazy update). `Model.C04.accept` is the trace acceptor the harness replays the
+observed store / hit events of such chains on; it is parametric in the key
+`Cache.Exec` uses, as a function of the context it is handed. -/
+
+/-- Every remembered answer stems from a store event of the trace so far and sits
+under the key of the question that store event saw. -/
+def Sound (evs : List Ev) (s : List Rec) : Prop :=
+  ∀ r ∈ s, ∃ ctx' : Ctx, Ev.store r.cache ctx' r.val ∈ evs ∧ r.storedBy = ctx'.q ∧
+    r.key = msgKey ctx'.q ∧ cacheable ctx'.q = true
+
+theorem accept_sound (keyFn : Ctx → Bytes) (hk : ∀ ctx, keyFn ctx = msgKey ctx.q)
+    (done : List Ev) (s s' : List Rec) (e : Ev) (h : Sound done s)
+    (ha : accept keyFn s e = some s') : Sound (done ++ [e]) s' := by
+  have weaken : ∀ r ∈ s, ∃ ctx' : Ctx, Ev.store r.cache ctx' r.val ∈ done ++ [e] ∧ r.storedBy = ctx'.q ∧
+      r.key = msgKey ctx'.q ∧ cacheable ctx'.q = true := by
+    intro r hr
+    obtain ⟨ctx', h1, h2⟩ := h r hr
+    exact ⟨ctx', List.mem_append_left _ h1, h2⟩
+  cases e with
+  | hit c ctx v =>
+    simp only [accept] at ha
+    split at ha
+    · cases ha; exact weaken
+    · cases ha
+  | store c ctx v =>
+    simp only [accept] at ha
+    split at ha
+    · cases ha; exact weaken
+    · rename_i hne
+      cases ha
+      intro r hr
+      rcases List.mem_cons.mp hr with rfl | hr
+      · refine ⟨ctx, by simp, rfl, hk ctx, ?_⟩
+        cases hc : cacheable ctx.q
+        · exact absurd (by rw [hk ctx]; unfold msgKey; simp [hc]) hne
+        · rfl
+      · exact weaken r hr
+
+theorem acceptAll_sound (keyFn : Ctx → Bytes) (hk : ∀ ctx, keyFn ctx = msgKey ctx.q)
+    (evs : List Ev) : ∀ (done : List Ev) (s s' : List Rec), Sound done s →
+      acceptAll keyFn s evs = some s' → Sound (done ++ evs) s' := by
+  induction evs with
+  | nil => intro done s s' h ha; simp only [acceptAll] at ha; cases ha; simpa using h
+  | cons e es ih =>
+    intro done s s' h ha
+    simp only [acceptAll] at ha
+    split at ha
+    · rename_i s₁ h₁
+      have := ih (done ++ [e]) s₁ s' (accept_sound keyFn hk done s s₁ e h h₁) ha
+      simpa [List.append_assoc] using this
+    · cases ha
+
+/-- **C04 (chains).** Whatever plugins rewrite the question between the cache
+plugins of a chain, and whatever the context carries along: if `Cache.Exec` keys
+by the question it is handed, a hit of a cache instance serves an answer that this
+instance stored for the same question with the same flags. Over all traces. -/
+theorem chain_hit_same_question (keyFn : Ctx → Bytes) (hk : ∀ ctx, keyFn ctx = msgKey ctx.q)
+    (evs : List Ev) (s s' : List Rec) (c : Nat) (ctx : Ctx) (v : Nat)
+    (h₁ : acceptAll keyFn [] evs = some s) (h₂ : accept keyFn s (.hit c ctx v) = some s') :
+    ∃ ctx' : Ctx, Ev.store c ctx' v ∈ evs ∧ SameQuestion ctx'.q ctx.q := by
+  have hs : Sound evs s := by
+    have := acceptAll_sound keyFn hk evs [] [] s (by intro r hr; cases hr) h₁
+    simpa using this
+  simp only [accept] at h₂
+  split at h₂
+  · rename_i hcond
+    simp only [Bool.and_eq_true, bne_iff_ne, ne_eq, List.any_eq_true, beq_iff_eq] at hcond
+    obtain ⟨hne, r, hr, ⟨hc, hkey⟩, hv⟩ := hcond
+    obtain ⟨ctx', hmem, _, hrk, hcache⟩ := hs r hr
+    refine ⟨ctx', by rw [← hc, ← hv]; exact hmem, ?_⟩
+    have hq : cacheable ctx.q = true := by
+      cases hcq : cacheable ctx.q
+      · exact absurd (by rw [hk ctx]; unfold msgKey; simp [hcq]) hne
+      · rfl
+    exact msgKey_injective _ _ hcache hq (by rw [← hrk, hkey, hk ctx])
+  · cases h₂
+
+/-- The source says that `Cache.Exec` computes its key from the question of the
+context it is handed (`q := qCtx.Q(); msgKey := getMsgKey(q)`) and passes this one
+key to every lookup and store; the key function read from the facts is the
+regenerated `getMsgKey` of that question. -/
+theorem exec_key_of_current_query :
+    ∃ k, execKey Gen.Facts.c04ExecKeyOfCurrentQuery Gen.Facts.c04ExecSingleKey = some k ∧
+      ∀ ctx : Ctx, k ctx = Gen.getMsgKey ctx.q :=
+  ⟨fun ctx => msgKey ctx.q,
+    by unfold execKey; exact if_pos (by decide),
+    fun ctx => (Refine.C04.getMsgKey_eq ctx.q).symm⟩
+
+/-- `chain_hit_same_question` for the key function the source has now. -/
+theorem chain_hit_same_question_gen (k : Ctx → Bytes)
+    (hk : execKey Gen.Facts.c04ExecKeyOfCurrentQuery Gen.Facts.c04ExecSingleKey = some k)
+    (evs : List Ev) (s s' : List Rec) (c : Nat) (ctx : Ctx) (v : Nat)
+    (h₁ : acceptAll k [] evs = some s) (h₂ : accept k s (.hit c ctx v) = some s') :
+    ∃ ctx' : Ctx, Ev.store c ctx' v ∈ evs ∧ SameQuestion ctx'.q ctx.q := by
+  obtain ⟨k', hk', _⟩ := exec_key_of_current_query
+  have hkk : ∀ ctx, k ctx = msgKey ctx.q := by
+    intro ctx
+    unfold execKey at hk
+    split at hk
+    · cases hk; rfl
+    · cases hk
+  exact chain_hit_same_question k hkk evs s s' c ctx v h₁ h₂
+
+/-- Why the key must be a function of the current question only: a key that is
+remembered in the context (and so survives `Copy` and a rewritten question) lets
+a cache behind a question-rewriting plugin serve the answer of one question to
+another. Witness: the A sub-query of an AAAA query stores under the carried AAAA
+key; the AAAA query is then served the A answer. -/
+def carriedKey (ctx : Ctx) : Bytes := ctx.carried.headD (msgKey ctx.q)
+def qAAAA : Query := { qA with qtype := 28 }
+theorem carried_key_is_wrong :
+    ∃ (evs : List Ev) (s : List Rec) (c : Nat) (ctx : Ctx) (v : Nat),
+      acceptAll carriedKey [] evs = some s ∧ accept carriedKey s (.hit c ctx v) = some s ∧
+      ∀ ctx' : Ctx, Ev.store c ctx' v ∈ evs → ¬ SameQuestion ctx'.q ctx.q := by
+  refine ⟨[.store 1 ⟨qA, [msgKey qAAAA]⟩ 7], [⟨1, msgKey qAAAA, qA, 7⟩], 1, ⟨qAAAA, [msgKey qAAAA]⟩, 7,
+    by decide, by decide, ?_⟩
+  intro ctx' hmem h
+  simp only [List.mem_singleton, Ev.store.injEq, true_and] at hmem
+  obtain ⟨rfl, _⟩ := hmem
+  exact absurd h.2.1 (by decide)
+
+example : acceptAll (fun ctx => msgKey ctx.q) [] [.store 0 ⟨qAAAA, []⟩ 1, .store 1 ⟨qA, []⟩ 2, .hit 1 ⟨qA, []⟩ 2,
+    .hit 0 ⟨qAAAA, []⟩ 1] ≠ none := by decide
+example : firstRejected (fun ctx => msgKey ctx.q) [] [.store 1 ⟨qA, []⟩ 2, .hit 1 ⟨qAAAA, []⟩ 2] 0 = some 1 := by decide
+
 /-! The dump / load_dump path re-stores entries: it keeps the invariant of `inv_run`
 (every stored entry sits under the key of the query it was produced for) exactly
 when an entry is written with, and loaded under, its own key - read from the source. -/
-theorem facts_guard : Gen.Facts.c04DumpWritesKey = some true ∧ Gen.Facts.c04DumpLoadKeepsKey = some true := by decide
+theorem facts_guard : Gen.Facts.c04DumpWritesKey = some true ∧ Gen.Facts.c04DumpLoadKeepsKey = some true ∧
+    Gen.Facts.c04ExecKeyOfCurrentQuery = some true ∧ Gen.Facts.c04ExecSingleKey = some true := by decide
 
 end Props.C04
